@@ -55,6 +55,13 @@ def run(ctx):
   from . import C10, C07
   C10.rank_flow(ctx)
   C07.sharded_triple(ctx)
+  # the flat per-statistic lists (statistic, exponent, padding start, previous root) stay aligned entry by entry: a
+  # statistic must never be masked with another block's padding start
+  C13.parallel_lists(ctx)
+  # Tearfree: putting the blocks back is the inverse of cutting them out (a block written to another block's place
+  # is one block's history driving another block's update)
+  from . import C06
+  C06.blockify_inverse(ctx)
 
 
 def _letters_summary(ev, bound, rec):
@@ -124,7 +131,7 @@ def tearfree_axis(ctx):
     okv = False
     why = 'the new covariance is not computed under jax.vmap'
     if vm:
-      wrapper, vargs, _, _ = vm[0]
+      wrapper, vargs = vm[0][0], vm[0][1]
       kw = dict(wrapper.args[1])
       okv = path_str(kw.get('in_axes', NONE)) == 'meta.blocks_axis' and is_const(kw.get('out_axes', const(0)), 0) and \
           len(vargs) == 2 and vargs[0] is U and vargs[1] is U
